@@ -93,8 +93,14 @@ class InjectedPPError(RuntimeError):
 class World:
     """One cache directory plus the remote world behind it."""
 
-    def __init__(self, keys=None, root=None):
+    _names = [0]
+
+    def __init__(self, keys=None, root=None, registry=False):
         from ocean_science_utilities.filecache import cache_object as co
+        from ocean_science_utilities.filecache import filecache as fcmod
+        self.fcmod = fcmod
+        self.registry = registry        # drive the cache through the module level API of filecache.py
+        self.regname = None
         from ocean_science_utilities.filecache.remote_resources import (
             RemoteResource, _RemoteResourceUriNotFound)
         self.co = co
@@ -115,8 +121,12 @@ class World:
         self.live_attempts = 0  # download attempts in flight (zombies outlive their call)
         self.foreign_state = "none"
         self.foreign_bytes = b"user data, not a cache file\n" * 10
+        # user files whose names resemble cache files (prefix only, postfix only, temp-like, config-like)
+        self.foreign_names = ["user_notes.txt", "cachefile_station_index.txt", "notes_cachefile",
+                              "cachefile_0123456789abcdef0123456789abcdef_cachefile.bak", "file_cache_config.json.orig"]
         self.faulty = False
         self.last_commit = None
+        self.lastuse = {}       # key -> logical time at which a request last returned it (a "use")
         world = self
 
         class MemResource(RemoteResource):
@@ -217,7 +227,6 @@ class World:
         with self.lock:
             outcome = self.plan.get(k, "ok")
             self.live_attempts += 1
-            self.rejects.discard(k)
         try:
             self._log("start", k, uri)
             self._hook("start", k, filepath)
@@ -246,6 +255,8 @@ class World:
             with open(filepath, "ab") as fp:
                 fp.write(data[half:])
             stamp(filepath)
+            with self.lock:
+                self.rejects.discard(k)       # a fresh copy has been fetched: the validator accepts it again
             self._log("written", k)
             self._hook("written", k, filepath)
             return True
@@ -277,7 +288,12 @@ class World:
     def _val(self, filepath):
         k = self.key_of_path(filepath)
         self._log("validate", k)
-        return k not in self.rejects
+        if k in self.rejects:
+            # validators may reject by returning False or by raising IOError (unreadable file)
+            if k in ("f",) or (k == "b" and len(self.log) % 2 == 0):
+                raise IOError("validation failed: cannot read %s" % os.path.basename(str(filepath)))
+            return False
+        return True
 
     def on_replace(self, src, dst):
         if os.path.dirname(dst) == self.dir:
@@ -295,7 +311,9 @@ class World:
             st = self.classify(k, p)
             if st != "none":
                 s = os.stat(p)
-                raw[k] = max(s.st_atime_ns, s.st_mtime_ns)
+                # recency of use: the later of the file's own time stamps (touch / download / user access) and the
+                # moment the current session last returned the file to a caller
+                raw[k] = max(s.st_atime_ns, s.st_mtime_ns, BASE_NS + self.lastuse.get(k, 0) * 10**9 if k in self.lastuse else 0)
             files[k] = {"st": st, "t": 0}
         order = sorted(set(raw.values()))
         for k, v in raw.items():
@@ -304,7 +322,7 @@ class World:
         known = set(self.name_of.values())
         tmp, unknown = 0, 0
         for n in sorted(os.listdir(self.dir)):
-            if n in known or n == "file_cache_config.json" or n == "user_notes.txt":
+            if n in known or n == "file_cache_config.json" or n in self.foreign_names:
                 continue
             if n.startswith("cachefile_") and n.endswith("_cachefile"):
                 unknown += 1
@@ -318,13 +336,17 @@ class World:
             extra = len(c) - len(entries)
             mx = int(round(c.config.max_size_bytes / 1000.0))
         fo = self.foreign_state
-        fpath = os.path.join(self.dir, "user_notes.txt")
         if fo != "none":
-            if not os.path.exists(fpath):
-                fo = "deleted"
-            else:
+            fo = "orig"
+            for fname in self.foreign_names:
+                fpath = os.path.join(self.dir, fname)
+                if not os.path.exists(fpath):
+                    fo = "deleted"
+                    break
                 with open(fpath, "rb") as fp:
-                    fo = "orig" if fp.read() == self.foreign_bytes else "changed"
+                    if fp.read() != self.foreign_bytes + fname.encode():
+                        fo = "changed"
+                        break
         cfg = None
         cpath = os.path.join(self.dir, "file_cache_config.json")
         if os.path.exists(cpath):
@@ -342,12 +364,23 @@ class World:
         P = self.project()
         err = None
         try:
-            c = self.co.FileCache(self.dir, size_GB=lim_kb * 1000 / 1e9,
-                                  do_cache_eviction_on_startup=evict, resources=[self.resource],
-                                  parallel=par, allow_for_missing_files=am)
-            c.disable_progress_bar = True
-            c.set_directive_function("postprocess", "pp", self._pp)
-            c.set_directive_function("validate", "val", self._val)
+            if self.registry:
+                World._names[0] += 1
+                self.regname = "verif-cache-%d" % World._names[0]
+                self.fcmod.create_cache(self.regname, cache_path=self.dir, cache_size_GB=lim_kb * 1000 / 1e9,
+                                        do_cache_eviction_on_startup=evict, download_in_parallel=par,
+                                        resources=[self.resource])
+                c = self.fcmod.get_cache(self.regname)
+                c.disable_progress_bar = True
+                self.fcmod.set_directive_function("postprocess", "pp", self._pp, cache_name=self.regname)
+                self.fcmod.set_directive_function("validate", "val", self._val, cache_name=self.regname)
+            else:
+                c = self.co.FileCache(self.dir, size_GB=lim_kb * 1000 / 1e9,
+                                      do_cache_eviction_on_startup=evict, resources=[self.resource],
+                                      parallel=par, allow_for_missing_files=am)
+                c.disable_progress_bar = True
+                c.set_directive_function("postprocess", "pp", self._pp)
+                c.set_directive_function("validate", "val", self._val)
             if not self.name_of:
                 self._learn_names(c)
             self.cache = c
@@ -377,7 +410,7 @@ class World:
         result, paths, exc = "ok", [], None
         try:
             arg = self.uri(keys[0]) if (single and len(keys) == 1) else [self.uri(k) for k in keys]
-            out = c[arg]
+            out = self.fcmod.filepaths(arg, self.regname) if self.registry else c[arg]
             for p in out:
                 k = self.key_of_path(p, strict=True)
                 if k is not None and os.path.dirname(str(p)) != self.dir:
@@ -390,6 +423,11 @@ class World:
         with self.lock:
             log = self.log[mark:]
             failed = sorted(self.failed)
+        if result == "ok":
+            now = CLOCK.t
+            for k in paths:
+                if k != "?":
+                    self.lastuse[k] = now
         Q = self.project()
         contacted = sorted({k for (_s, stage, k, _t, _u) in log if stage == "start"})
         wrong_uri = [(k, u) for (_s, stage, k, _t, u) in log
@@ -399,11 +437,24 @@ class World:
                 "rejected": rejected, "clean": not self.faulty, "nozombie": nozombie,
                 "wrong_uri": wrong_uri, "par": bool(c.config.parallel), "P": P, "Q": Q}
 
+    def settle(self, timeout=3.0):
+        """best effort: wait until no download attempt of an earlier (raised) request is in flight"""
+        t0 = time.time()
+        while time.time() - t0 < timeout:
+            with self.lock:
+                if self.live_attempts == 0:
+                    break
+            time.sleep(0.002)
+        time.sleep(0.01)
+
     def remove(self, k):
         P = self.project()
         exc = None
         try:
-            self.cache.remove(self.uri(k))
+            if self.registry:
+                self.fcmod.delete_files(self.uri(k), self.regname, error_if_not_in_cache=False)
+            else:
+                self.cache.remove(self.uri(k))
         except Exception as e:
             exc = type(e).__name__
         return {"op": "remove", "key": k, "exc": exc, "P": P, "Q": self.project()}
@@ -432,8 +483,9 @@ class World:
     def foreign(self):
         P = self.project()
         if self.foreign_state == "none":
-            with open(os.path.join(self.dir, "user_notes.txt"), "wb") as fp:
-                fp.write(self.foreign_bytes)
+            for fname in self.foreign_names:
+                with open(os.path.join(self.dir, fname), "wb") as fp:
+                    fp.write(self.foreign_bytes + fname.encode())
             self.foreign_state = "orig"
         return {"op": "foreign", "P": P, "Q": self.project()}
 
@@ -442,6 +494,10 @@ class World:
         the crash point) if given, else on the directory as it is now."""
         P = self.project()
         self.cache = None
+        self.lastuse = {}       # a new process knows only the file times
+        if self.registry and self.regname is not None:
+            self.fcmod._ACTIVE_FILE_CACHES.pop(self.regname, None)     # the process ends: the registry is gone
+            self.regname = None
         if mid_request:
             self.faulty = True      # a clean close / reopen between calls is not a fault
         self.rejects = set()
@@ -469,6 +525,8 @@ class World:
         return h, holder
 
     def close(self):
+        if self.registry and self.regname is not None:
+            self.fcmod._ACTIVE_FILE_CACHES.pop(self.regname, None)
         _WORLD["w"] = None
         shutil.rmtree(self.root, ignore_errors=True)
 
